@@ -95,7 +95,9 @@ impl Vm {
       },
       ExecutionResult::RuntimeError => match self.fiber.error() {
         Some(error) => Call::Err(LyError::Err(error)),
-        None => self.internal_error("Error not set on vm executor."),
+        // the only runtime error without an error object is the deadlock
+        // the scheduler has already reported, end the program with its status
+        None => Call::Err(LyError::Exit(1)),
       },
     }
   }
